@@ -62,8 +62,10 @@ def gen(ctx):
                 chunks = [b'']
             lines.append('rs.enc %d %s' % (n, ','.join(c.hex() if c else '-' for c in chunks)))
     if ctx.tier == 'thorough':
-        for n in range(2, 69):
-            lines.append('rs.basis %d' % n)
+        # spread the 67 heavy enumeration lines evenly so that the parallel chunks of the runner are balanced
+        step = max(1, len(lines) // 67)
+        for k, n in enumerate(range(2, 69)):
+            lines.insert(min(len(lines), k * (step + 1)), 'rs.basis %d' % n)
     return lines
 
 
